@@ -16,14 +16,15 @@ WARM = ["daily"]
 RULE = (
     "Cases: generated baselines over the regimes the quantifier lists (heating-only, cooling-only, both, flat with noise; "
     "weekday/weekend and seasonal level shifts; outliers; noise 0.5-30%; 330-365 days; daily and monthly-billed) with a share of "
-    "awkward weather (narrow temperature range, balance point near the edge of the data, few hot or cold days), fitted under the "
+    "awkward weather (narrow temperature range, balance point near the edge of the data, few hot or cold days), a share with a one-off "
+    "base-load step part-way through the year or a response only on the 3-6 most extreme days, fitted under the "
     "current, legacy and billing profiles. Oracle per stored sub-model (segment days recomputed from the data with the "
     "document's own calendar maps): finite numbers; heating balance point <= cooling one; both inside the segment's temperature "
     "range; slope signs per the JSON convention and non-zero when declared; smoothing >= 0; base load within the segment's usage "
     "range; uncertainty finite and >= 0; model_type <-> set of non-null coefficients; T_min/T_max = extremes of the segment's "
     "temperatures, T_*_seg = its segment_minimum_count-th order statistics. Curve agreement: for every entry of fit_components "
     "and of the final model, eval(component.T) equals component.model (relative 1e-9); a mismatch is keyed by its cause using "
-    "the raw optimiser vector (hook H1). Non-trivial: the fit selected a sloped shape, or a split, or a coefficient on a bound. "
+    "the raw optimiser vector (hook H1); the reference curve of the JSON coefficients equals eval() at the component's temperatures. Non-trivial: the fit selected a sloped shape, or a split, or a coefficient on a bound. "
     "Distinct = distinct case descriptions."
 )
 ASSUMPTIONS = [
@@ -45,6 +46,12 @@ def cases(draw, profile=None):
          "noise": draw(st.sampled_from([0.005, 0.02, 0.1, 0.3])), "weekend_shift": draw(st.sampled_from([0.0, 0.0, 0.4, -0.4])),
          "season_shift": draw(st.sampled_from([0.0, 0.0, 0.5, -0.4])), "outliers": draw(st.sampled_from([0, 0, 3, 8])),
          "weather": draw(st.sampled_from(["normal", "normal", "narrow", "hot", "cold", "edge"])), "south": draw(st.booleans())}
+    # non-weather regimes: a one-off base-load step part-way through the year (strongly autocorrelated residuals), and a site
+    # that responds to temperature only on its few most extreme days (balance points pushed onto the same bound)
+    c["step"] = draw(st.sampled_from([None, None, None, [0.55, 1.0], [0.4, 0.5], [0.7, -0.5]]))
+    c["extreme_days"] = draw(st.sampled_from([None, None, None, [3, "hot"], [5, "cold"], [6, "hot"], [4, "both"]]))
+    if c["step"] is not None:
+        c["noise"] = draw(st.sampled_from([0.002, 0.005, 0.02]))
     return c
 
 
@@ -55,6 +62,23 @@ def build(c):
     df = synth.daily_frame(n=c["n"], tz=c["tz"], start_day=c["start_day"], noise_seed=c["seed"], weather=w,
                            usage={"base": c["base"], "hs": c["hs"], "hb": c["hb"], "cs": c["cs"], "cb": c["hb"] + c["gap"]},
                            noise=c["noise"], additive=0.0, weekend_shift=c["weekend_shift"], season_shift=c["season_shift"], outliers=c["outliers"])
+    if c.get("extreme_days"):
+        k, side = c["extreme_days"]
+        T = df["temperature"].values
+        rng = np.random.default_rng(c["seed"] + 5)
+        obs = c["base"] * (1 + c["noise"] * np.clip(rng.normal(0, 0.5, len(T)), -1, 1))
+        order = np.argsort(T)
+        if side in ("hot", "both"):
+            hot = order[-k:]
+            obs[hot] += 0.15 * c["base"] * (1 + np.arange(k))
+        if side in ("cold", "both"):
+            cold = order[:k][::-1]
+            obs[cold] += 0.15 * c["base"] * (1 + np.arange(k))
+        df["observed"] = obs
+    if c.get("step"):
+        frac, rel = c["step"]
+        k = int(frac * len(df))
+        df.iloc[k:, df.columns.get_loc("observed")] += rel * c["base"]
     df["observed"] = np.abs(df["observed"]) + 1e-3
     return df
 
@@ -180,7 +204,22 @@ def judge(c, rec):
             stage = nm.split(":")[0]
             rec.violation("%s/curve-mismatch/%s/%s" % (K, stage, cause), c, "%s (%s): stored coefficients give fitted values off by %.3g (relative to 1+max); raw vector %s" % (
                 nm, comp.model_key, err, None if raw is None else [round(float(v), 4) for v in raw]))
+    # the coefficients written to the document are the ones eval() uses: the reference curve of the JSON coefficients at the
+    # component's own temperatures equals eval() (both are read-back paths; independent of the known clipping findings)
+    for name, comp in m.model.items():
+        sm = doc["submodels"].get(name)
+        if sm is None:
+            continue
+        ref = rc.curve(sm["coefficients"], sm["temperature_constraints"], comp.T)[0]
+        ev = comp.eval(comp.T)[0]
+        scale = 1 + float(np.max(np.abs(ev)))
+        err = float(np.max(np.abs(ref - ev))) / scale
+        if err > 1e-9:
+            i = int(np.argmax(np.abs(ref - ev)))
+            rec.violation(K + "/kept-coefficients-differ-from-eval", c, "%s: JSON coefficients give %r at T=%r, the component's eval() %r (model_type %s)" % (
+                name, float(ref[i]), float(comp.T[i]), float(ev[i]), sm["coefficients"]["model_type"]))
     split = "__" in (m.best_combination or "")
+    cls = cls + ["step=%d" % bool(c.get("step")), "extreme-days=%d" % bool(c.get("extreme_days"))]
     rec.case(c, bool(sloped or split or onbound), cls + ["split=%d" % split, "sloped=%d" % sloped])
 
 
